@@ -23,12 +23,14 @@ MCTPs  == << [t |-> "node", p |-> "node"], [t |-> "between", p |-> "between"], [
 \* sub-alphabet 0, 1, 2, 3, 5 already under the default configuration, the latched mode without any memo, and the
 \* configuration mutants without a memo on windows 0 and 5: keeps the number of reported counterexamples small.
 \* The sound variants walk the whole window alphabet under the default configuration and windows 0, 1, 5 (full grid,
-\* a native run, between native points) under every other one.
+\* a native run, between native points) under every other one (with a memo: the reloading route "global" and the
+\* in-place route "setter", which keeps the memo).
 BaseCfg == interp = "linear" /\ route = "global" /\ extra = "none"
 MutantAlphabet ==
-    \/ Sound /\ (BaseCfg \/ win \in {0, 1, 5})
+    \/ Sound /\ (IF BaseCfg THEN tp \in {1, 2} \/ win \in {0, 1, 5}
+                         ELSE win \in {0, 1, 5} /\ (Key = "none" \/ route \in {"global", "setter"}))
     \/ /\ CfgRead = "both" /\ BaseCfg
-       /\ win \in {0, 1, 2, 3, 5} /\ (ModeRead = "construct" => Key = "none")
+       /\ win \in {0, 1, 2, 3, 5} /\ tp \in {1, 2} /\ (ModeRead = "construct" => Key = "none")
     \/ /\ CfgMutant /\ win \in {0, 5} /\ extra = "none" /\ mode = "k"
 
 \* ---- export of the configuration alphabet (binding A of the configuration dimension): every class of
